@@ -211,8 +211,10 @@ where
     }
 
     fn early_exit(&self) {
-        self.counter().store(usize::MAX);
+        // the flag is set first: once the counter is moved to its maximum, the next reservations wrap it around to
+        // positions that may still be in use, and their holders must already find the iteration completed
         self.completed.store(true, atomic::Ordering::SeqCst);
+        self.counter().store(usize::MAX);
     }
 }
 
